@@ -439,6 +439,54 @@ def t07_hmtx(run, fx):
         run.anchor_missing(rule, "left_side_bearings[g - n] reads (found %d)" % n)
 
 
+# ---- T07-REMAP: every composite that goes into the subset has had its components renumbered ---------------------------------------------
+def t07_remap(run, fx):
+    rule = "T07-REMAP"
+    run.rule(rule, "TrueType subset: a composite glyph refers to its components by glyph id, and the subset renumbers glyphs, so every composite record "
+                   "that is pushed into the subset must have gone through add_glyph (which pulls the components in and stores their new ids; its id "
+                   "discipline is T07-ID). In GlyfTable::subset every path from the function entry to a push of a record either takes the false edge "
+                   "of a test of record.is_composite() or passes the call of add_glyph - no other condition (a fast path for 'all glyphs requested', a "
+                   "cache) may route a composite round it")
+    b = fx.body("tables::glyf::subset::<impl tables::glyf::GlyfTable<'a>>::subset")
+    if b is None:
+        return run.anchor_missing(rule, "GlyfTable::subset")
+    prov = sym.Prov(b)
+    pushes = [bi for bi, t in b.calls() if callee_is(t, "Vec::<T, A>::push", "Vec::<T>::push") and "SubsetGlyph" in (b.operand_ty(t["args"][1]) if hasattr(b, "operand_ty") else "SubsetGlyph")]
+    adds = {bi for bi, t in b.calls() if callee_is(t, "glyf::subset::add_glyph")}
+    tests = {}
+    for bi in range(len(b.blocks)):
+        t = b.term(bi)
+        if b.reachable(bi) and t["k"] == "switch":
+            d = sym.strip(prov.op(t["discr"]))
+            if d[0] == "call" and str(d[1]).endswith("::is_composite"):
+                for v, tgt in t["arms"]:
+                    if v == 0:
+                        tests[bi] = tgt
+    if not pushes or not adds or not tests:
+        return run.anchor_missing(rule, "push of a SubsetGlyph / call of add_glyph / test of is_composite() in GlyfTable::subset (%d/%d/%d)" % (len(pushes), len(adds), len(tests)))
+    # edge-wise reachability from the entry, never entering add_glyph and never taking the not-composite edge
+    seen, todo = set(), [0]
+    while todo:
+        x = todo.pop()
+        if x in seen or x in adds:
+            continue
+        seen.add(x)
+        for y in b.succs(x):
+            if x in tests and y == tests[x]:
+                # the same block may also be the target of the other arm (a degenerate test); then it stays reachable through that arm
+                t = b.term(x)
+                others = [tg for v, tg in t["arms"] if v != 0] + ([t["otherwise"]] if t.get("otherwise") is not None else [])
+                if y not in others:
+                    continue
+            todo.append(y)
+    bad = [p for p in pushes if p in seen]
+    if bad:
+        run.fail(rule, "remap:bypass", "a record can reach the subset (push at %s) without either being tested as not composite or going through add_glyph: a composite "
+                 "copied this way keeps the component ids of the source font" % b.loc(b.term(bad[0])), b.loc(b.term(bad[0])))
+    else:
+        run.ok(rule, "GlyfTable::subset: %d push(es); each is reached only past the not-composite edge or add_glyph" % len(pushes))
+
+
 def check(run, fx, tier, floors=True):
     if floors or any(b.path.endswith("cff::charstring::convert_cff2_to_cff") for b in fx.bodies):
         # subsetting CFF2 to CFF re-emits every operator through From<VisitOp> for u8: the operator tables are part of "outlines are preserved"
@@ -456,6 +504,8 @@ def check(run, fx, tier, floors=True):
         import rules_C15
         rules_C15.c15_s(run, fx, floors)
     t07_id(run, fx, floors)
+    if floors or fx.body("tables::glyf::subset::<impl tables::glyf::GlyfTable<'a>>::subset") is not None:
+        t07_remap(run, fx)
     t07_map(run, fx)
     if floors or fx.body("tables::glyf::GlyfRecord::<'a>::is_composite") is not None:
         t07_comp(run, fx)
